@@ -56,6 +56,7 @@ type thread struct {
 	vc      vclock
 	exited  chan struct{}
 	curFn   string
+	fn      *ssa.Function
 }
 
 type mutexState struct {
@@ -310,6 +311,7 @@ func (m *machine) choose(n int, kind byte) int {
 	for i := n - 1; i >= 1; i-- {
 		m.pushAlt(Decision{K: kind, C: i})
 	}
+	m.h.noteForkAt("choice:" + string(kind))
 	m.trace = append(m.trace, Decision{K: kind, C: 0})
 	return 0
 }
@@ -385,6 +387,11 @@ func (m *machine) concretize(t *Term, why string) int64 {
 	}
 	if _, vals, more := pick(excl2); more {
 		m.pushAltModel(Decision{K: 'v', X: excl2}, vals)
+		if m.cur != nil && m.cur.fn != nil {
+			m.h.noteForkAt("concretize:" + why + "@" + m.cur.fn.Name() + " " + t.String())
+		} else {
+			m.h.noteForkAt("concretize:" + why)
+		}
 	}
 	m.trace = append(m.trace, Decision{K: 'v', V: v})
 	m.addPC(mkEq(t, mkBV(w, v)))
